@@ -284,6 +284,21 @@ async def sc_discovery(cap, cls, curve):
     await pump()
     a.overlay.send_similarity_request(b.endpoint.wan_address)
     await pump()
+    # the legacy (2014) introduction request that the raw handler tries FIRST: no sender in the tree produces it any more,
+    # so it is built from the payload class and the sender's own packing function
+    try:
+        from ipv8.messaging.payload_headers import BinMemberAuthenticationPayload, GlobalTimeDistributionPayload
+        from ipv8.peerdiscovery.payload import DiscoveryIntroductionRequestPayload
+        for ident in (4711, 4712):
+            pl = DiscoveryIntroductionRequestPayload(b"\x07" * 20, b.endpoint.wan_address, a.overlay.my_estimated_lan,
+                                                     a.overlay.my_estimated_wan, True, "unknown", ident, b"")
+            pkt = a.overlay._ez_pack(a.overlay.get_prefix(), 246,  # noqa: SLF001
+                                     [BinMemberAuthenticationPayload(a.my_peer.public_key.key_to_bin()),
+                                      GlobalTimeDistributionPayload(a.overlay.claim_global_time()), pl])
+            a.overlay.endpoint.send(b.endpoint.wan_address, pkt)
+        await pump()
+    except BaseException as e:
+        cap.ctx.count(f"capture:legacy-intro-failed:{type(e).__name__}")
     return nodes
 
 
@@ -685,6 +700,13 @@ def mutants_of(ctx: Ctx, pk: dict, pool: list, tables_by_name: dict, other_keys:
     unsigned_ids = [h["msg_id"] for h in tab["handlers"] if h["kind"] in ("unsigned", "unsignedWd")]
     if unsigned_ids:
         out.append((ov, d[:22] + bytes([rng.choice(unsigned_ids)]) + d[23:], "msgid-swap", "to-unsigned"))
+    for kind_ in ("deprecated", "cell", "cellDirect"):
+        km = [h["msg_id"] for h in tab["handlers"] if h["kind"] == kind_]
+        if km:
+            out.append((ov, d[:22] + bytes([rng.choice(km)]) + d[23:], "msgid-swap", "to-" + kind_))
+    free_ids = sorted(set(range(256)) - {h["msg_id"] for h in tab["handlers"]})
+    if free_ids:
+        out.append((ov, d[:22] + bytes([rng.choice(free_ids)]) + d[23:], "msgid-swap", "to-unregistered"))
     # 10. strip authentication
     out.append((ov, d[:23] + d[25 + kl:-n], "strip-auth", "key+sig"))
     out.append((ov, d[:-n], "strip-auth", "sig-only"))
@@ -705,6 +727,10 @@ def mutants_of(ctx: Ctx, pk: dict, pool: list, tables_by_name: dict, other_keys:
         if spec_eval(body + sg_)["authentic"]:
             out.append((ov, body + sg_, "noncanonical-key", "compressed-point-resigned-by-owner(authentic)"))
             out.append((ov, body + d[-n:], "noncanonical-key", "compressed-point-old-signature"))
+            if real_parse(ck)[1] > 25 + len(ck) + 8:
+                # the key's signature length exceeds the whole datagram: `data[:-n]` is empty, `data[-n:]` is everything
+                out.append((ov, d[:23] + len(ck).to_bytes(2, "big") + ck + bytes(8), "noncanonical-key",
+                            "compressed-point-datagram-shorter-than-signature"))
             head2 = d[:23] + len(ck).to_bytes(2, "big") + ck       # no payload at all: the signed part is header + key only
             out.append((ov, head2 + bytes(sk.signature(head2)), "noncanonical-key", "compressed-point-no-payload(authentic)"))
     return out
@@ -811,8 +837,20 @@ def handler_for(table, data: bytes):
     return next((h for h in table["handlers"] if h["msg_id"] == data[22]), None)
 
 
+def RAW_FORMATS():
+    from ipv8.messaging.payload import IntroductionRequestPayload
+    from ipv8.messaging.payload_headers import GlobalTimeDistributionPayload
+    from ipv8.peerdiscovery.payload import DiscoveryIntroductionRequestPayload
+    return ([GlobalTimeDistributionPayload, DiscoveryIntroductionRequestPayload],
+            [GlobalTimeDistributionPayload, IntroductionRequestPayload])
+
+
 def decode_bit(node, classes, buf: bytes) -> bool:
     try:
+        if node is None:
+            from ipv8.messaging.serialization import default_serializer
+            default_serializer.unpack_serializable_list(classes, buf, offset=23)
+            return True
         node.overlay.serializer.unpack_serializable_list(classes, buf, offset=23)
         return True
     except BaseException:
@@ -878,6 +916,180 @@ async def deliver(node, obs: Observer, src, data: bytes, watch=(), prelude: byte
     after_peers = {bytes(p.public_key.key_to_bin()) for p in net.verified_peers}
     moved = [k for k, (pr, st) in watched.items() if peer_state(pr) != st]
     return list(obs.events), (after - before) | (after_peers - before_peers), moved
+
+
+# Every branch of the HAND-WRITTEN model definitions (onPacket, unpackVarlenH/keyField, pySlice, discRaw, the interpreter's
+# stages per wrapper kind, touchedBy) that carries a clause of the property.  They are tied to the code only by the
+# correspondence, so every one of them must be reached in every run: a class that stays at zero ends the run with exit 2.
+REQUIRED_BRANCHES = [
+    "onPacket:dropped-prefix", "onPacket:dropped-short", "onPacket:no-handler", "onPacket:other:deprecated",
+    "onPacket:handler:signed", "onPacket:handler:signedWd", "onPacket:handler:unsigned", "onPacket:handler:raw",
+    "keyField:no-room-for-length-bytes", "keyField:declared-length-beyond-datagram", "keyField:ok",
+    "parse:fails", "parse:canonical", "parse:non-canonical-encoding",
+    "pySlice:signature-fits", "pySlice:signature-longer-than-datagram",
+    "signed:rejected-decode", "signed:rejected-signature", "signed:called-lookup-miss", "signed:called-lookup-hit",
+    "signedWd:rejected-decode", "signedWd:rejected-signature", "signedWd:called-lookup-miss", "signedWd:called-lookup-hit",
+    "unsigned:called-addr", "unsigned:rejected-decode",
+    "discRaw:first-format", "discRaw:second-format", "discRaw:rejected-signature", "discRaw:rejected-decode-both",
+    "discRaw:rejected-keyparse", "touchedBy:some", "touchedBy:none-for-a-called-handler",
+]
+
+
+def model_branches(rep: str, c: dict, h, touched: bool):
+    """which branches of the hand-written model definitions the datagram of case `c` takes (from the model's reply and the
+    answers the harness gave to the model's questions)"""
+    out = []
+    head = rep.split(" ")[0]
+    data = c["data"]
+    if head in ("dropped-prefix", "dropped-short", "no-handler"):
+        return ["onPacket:" + head]
+    if head == "other":
+        return ["onPacket:other:" + rep.split(" ")[1]]
+    if h is None:
+        return out
+    kind = h["kind"]
+    out.append("onPacket:handler:" + kind)
+    if kind in ("unsigned", "unsignedWd"):
+        out.append(f"{kind}:{'called-addr' if head == 'called-addr' else 'rejected-decode'}")
+        return out
+    if c.get("m_kf") is None:
+        out.append("keyField:no-room-for-length-bytes" if len(data) < 25 else "keyField:declared-length-beyond-datagram")
+        return out
+    out.append("keyField:ok")
+    if not c.get("m_parse"):
+        out.append("parse:fails")
+        if kind == "raw":
+            out.append("discRaw:rejected-keyparse")
+        return out
+    out.append("parse:canonical" if c["m_parse"][2] == c["m_kf"] else "parse:non-canonical-encoding")
+    out.append("pySlice:signature-fits" if c["m_parse"][1] <= len(data) else "pySlice:signature-longer-than-datagram")
+    if kind in ("signed", "signedWd"):
+        if head == "called":
+            out.append(f"{kind}:called-lookup-{'hit' if c.get('net_hit') else 'miss'}")
+            out.append("touchedBy:some" if touched else "touchedBy:none-for-a-called-handler")
+        elif rep.startswith("rejected"):
+            out.append(f"{kind}:rejected-{rep.split(' ')[1]}")
+    elif kind == "raw":
+        dec = c.get("dec", "00")
+        if head == "called":
+            out.append("discRaw:first-format" if dec[0] == "1" else "discRaw:second-format")
+        elif rep == "rejected signature":
+            out.append("discRaw:rejected-signature")
+        elif rep == "rejected decode":
+            out.append("discRaw:rejected-decode-both")
+    return out
+
+
+def primitives_phase(ctx: Ctx, drv, scale):
+    """`pySlice` vs CPython slicing and `unpackVarlenH` vs the live varlenH packer: every (length <= 4, lo, hi in
+    {omitted, -7..7}) combination, every small (declared length, actual length, offset) combination, plus random ones"""
+    from ipv8.messaging.serialization import default_serializer
+    rng = ctx.rng
+    strict = "1" if gen_c01.probe_varlen_strict() else "0"
+    packer = default_serializer.get_packer_for("varlenH")
+    lines, want = [], []
+    bounds = [None, *range(-7, 8)]
+    for ln in range(5):
+        d = bytes(range(1, ln + 1))
+        for lo in bounds:
+            for hi in bounds:
+                lines.append(f"slice {d.hex() or '-'} {'-' if lo is None else lo} {'-' if hi is None else hi}")
+                want.append(d[lo:hi].hex() or "-")
+    for _ in range(scale.get("primitive_random", 300)):
+        d = bytes(rng.randrange(256) for _ in range(rng.choice([0, 1, 23, 24, 25, 26, 60, 150, 300])))
+        lo = rng.choice([None, rng.randrange(-400, 400), 2 + rng.randrange(200)])
+        hi = rng.choice([None, -rng.randrange(0, 200), rng.randrange(-400, 400)])
+        lines.append(f"slice {d.hex() or '-'} {'-' if lo is None else lo} {'-' if hi is None else hi}")
+        want.append(d[lo:hi].hex() or "-")
+    ctx.count("primitive:slice", len(lines))
+
+    def real_varlen(d, off):
+        out = []
+        try:
+            end = packer.unpack(d, off, out)
+            return f"{out[0].hex() or '-'} {end}"
+        except BaseException:
+            return "err"
+    nv = 0
+    for declared in range(6):
+        for actual in range(7):
+            for off in range(4):
+                for have_len_bytes in (0, 1, 2):
+                    d = bytes(off) + declared.to_bytes(2, "big")[:have_len_bytes] + bytes(range(10, 10 + actual))
+                    lines.append(f"varlen {strict} {d.hex() or '-'} {off}")
+                    want.append(real_varlen(d, off))
+                    nv += 1
+    for _ in range(scale.get("primitive_random", 300)):
+        off = rng.choice([0, 1, 23, 23, 23, 40])
+        body = bytes(rng.randrange(256) for _ in range(rng.randrange(0, 120)))
+        declared = rng.choice([len(body), len(body), max(0, len(body) - 1), len(body) + 1, 0, 65535, rng.randrange(0, 300)])
+        d = bytes(rng.randrange(256) for _ in range(off)) + declared.to_bytes(2, "big") + body
+        if rng.random() < 0.15:
+            d = d[:off + rng.randrange(0, 3)]
+        lines.append(f"varlen {strict} {d.hex() or '-'} {off}")
+        want.append(real_varlen(d, off))
+        nv += 1
+    ctx.count("primitive:varlen", nv)
+    for ln, rep, w in zip(lines, drv.batch(lines), want):
+        if rep != w:
+            ctx.count("primitive:disagree")
+            ctx.disagree(f"hand-written primitive differs from the real one on `{ln[:120]}`: model `{rep[:80]}` real `{w[:80]}`",
+                         {"line": ln, "model": rep, "real": w})
+            break
+    ctx.evaluations += len(lines)
+
+
+async def history_phase(ctx: Ctx, drv, steps, tbn):
+    from ipv8.messaging.anonymization.pex import PexCommunity, PexSettings
+    node = gen_c01.make_node(tbn["DiscoveryCommunity"]["cls"])
+    node.endpoint.send = lambda addr, packet: None
+    pex = PexCommunity(PexSettings(my_peer=node.my_peer, endpoint=node.endpoint, network=node.network,
+                                   info_hash=b"\x07" * 20))
+    overlays = {"DiscoveryCommunity": node.overlay, "PexCommunity": pex}
+    for ov in overlays.values():
+        ov.max_peers = -1
+    if bytes(pex.get_prefix()) != tbn["PexCommunity"]["prefix"] or pex.network is not node.overlay.network:
+        ctx.count("history:setup-mismatch")
+        return
+    lines, impl = ["hist-reset"], [None]
+    for c in steps:
+        data, tgt = c["data"], c["target"]
+        h = handler_for(tbn[tgt], data)
+        dec = "00"
+        if h is not None and c.get("m_rem") is not None:
+            if h["kind"] == "raw":
+                dec = "".join("1" if decode_bit(None, fm, c["m_rem"]) else "0" for fm in RAW_FORMATS())
+            elif h["kind"] in ("signed", "signedWd"):
+                dec = "1" if decode_bit(None, h["payload_classes"], c["m_rem"]) else "0"
+        try:
+            overlays[tgt].on_packet((c["src"], bytes(bytearray(data))))
+        except BaseException:
+            pass
+        await asyncio.sleep(0)
+        net = node.overlay.network
+        keys = {bytes(k) for k in net.verified_by_public_key_bin} | {bytes(p.public_key.key_to_bin()) for p in net.verified_peers}
+        impl.append("verified " + " ".join(sorted(k.hex() for k in keys)))
+        pa = "none" if not c.get("m_parse") else f"{c['m_parse'][1]}:{c['m_parse'][2].hex()}"
+        lines.append(f"hist {tgt} {data.hex()} {pa} {1 if c.get('m_verify') else 0} {dec}")
+        ctx.count(f"history:step:{c['cls']}")
+        ctx.case(("history", tgt, data[22], c["cls"]), True)
+    replies = drv.batch(lines)        # one driver process: the Node state lives in it
+    for i, (ln, rep, im) in enumerate(zip(lines, replies, impl)):
+        if im is None:
+            continue
+        if rep.strip() != im.strip():
+            ctx.count("history:disagree")
+            ctx.disagree(f"history step {i} ({steps[i - 1]['cls']} to {steps[i - 1]['target']}): model key index `{rep[:120]}` vs "
+                         f"implementation `{im[:120]}`",
+                         {"history": [{"overlay": s_["target"], "src": list(s_["src"]), "data": s_["data"].hex()}
+                                      for s_ in steps[:i]]})
+            break
+    ctx.count("history:final-keys", len(impl[-1].split(" ")) - 1 if impl[-1] else 0)
+    try:
+        await pex.unload()
+        await node.stop()
+    except BaseException:
+        pass
 
 
 def fresh_key(ctx: Ctx, curve: str):
@@ -974,11 +1186,17 @@ async def run_async(ctx: Ctx, use_model: bool, scale: dict):
             # a sender of the working tree produced an unauthentic datagram for an authenticated id; it is still
             # delivered (unmodified and mutated): if a handler accepts it, that is a violation with a concrete input
             ctx.count("captured:signed-but-not-authentic")
-        key = (p["overlay"], d[22], p["curve"])
+        # one base datagram per (overlay, msg id, sender curve, payload shape): which of the handler's decoders accepts the
+        # payload (the raw handler has two formats) and a coarse length class
+        shape = ""
+        if h["kind"] == "raw":
+            rem_ = bytes(23) + d[25 + len(sp["key_field"]):-sp["n"]] if sp["canon"] else b""
+            shape = "".join("1" if decode_bit(None, fm, rem_) else "0" for fm in RAW_FORMATS())
+        key = (p["overlay"], d[22], p["curve"], shape)
         seen_pairs[key] = seen_pairs.get(key, 0) + 1
         if seen_pairs[key] <= scale["per_pair"]:
             signed.append(p)
-    covered = {(o, m) for (o, m, _) in seen_pairs}
+    covered = {(o, m) for (o, m, *_rest) in seen_pairs}
     ctx.extra["auth_pairs_required"] = len(required)
     ctx.extra["auth_pairs_with_captured_datagram"] = len(covered & required)
     ctx.extra["auth_pairs_without_captured_datagram"] = sorted(f"{o}:{m}" for o, m in required - covered)
@@ -1070,6 +1288,30 @@ async def run_async(ctx: Ctx, use_model: bool, scale: dict):
         for lab, fd in forged:
             cases.append({"target": p["overlay"], "data": fd, "op": "back-to-back", "cls": lab, "origin": p["overlay"],
                           "curve": p["curve"], "src": p["src"], "prelude": d, "srcstate": "after-authentic-datagram"})
+    # -- a HISTORY for the node model (`Node.recv` / `history_sound`): two overlays that share one Network, fed a sequence of
+    #    forged and authentic introduction datagrams of several keys; after every step the model's verified-key set is
+    #    compared with the implementation's key index
+    hist_cases = []
+    for p in signed:
+        if p["overlay"] not in ("DiscoveryCommunity", "PexCommunity") or p["data"][22] not in (233, 234, 245, 246):
+            continue
+        d = p["data"]
+        spb = spec_eval(d)
+        if not spb["authentic"]:
+            continue
+        kl_, n_ = len(spb["key_field"]), spb["n"]
+        other = "PexCommunity" if p["overlay"] == "DiscoveryCommunity" else "DiscoveryCommunity"
+        ak = fresh_key(ctx, "curve25519")
+        apub = bytes(ak.pub().key_to_bin())
+        body = d[:23] + len(apub).to_bytes(2, "big") + apub + d[25 + kl_:-n_]
+        swapped = tbn[other]["prefix"] + body[22:]
+        for tgt_, dd, lab in ((p["overlay"], d[:-1] + bytes([d[-1] ^ 1]), "forged"), (p["overlay"], d, "authentic"),
+                              (other, d, "foreign-prefix"), (p["overlay"], body + bytes(ak.signature(body)), "authentic-new-key"),
+                              (other, swapped + bytes(ak.signature(swapped)), "authentic-new-key-other-overlay"),
+                              (p["overlay"], d, "authentic-again")):
+            hist_cases.append({"target": tgt_, "data": dd, "op": "history", "cls": lab, "origin": p["overlay"],
+                               "curve": p["curve"], "src": p["src"], "hist": True})
+    cases.extend(hist_cases[:scale.get("history_steps", 60)])
     # unsigned datagrams are delivered unmodified (they must keep working and must never yield a Peer)
     uns = [p for p in packets if (p["overlay"], p["data"][22]) not in required]
     for p in uns[:scale["unsigned_samples"]]:
@@ -1106,6 +1348,8 @@ async def run_async(ctx: Ctx, use_model: bool, scale: dict):
     accepted = {}           # receiver -> [(src, data)] of deliveries that entered a handler (for history replays)
     try:
         for c in cases:
+            if c.get("hist"):
+                continue
             data, tgt = c["data"], c["target"]
             node = recv.get(tgt)
             t = tbn[tgt]
@@ -1241,6 +1485,10 @@ async def run_async(ctx: Ctx, use_model: bool, scale: dict):
                     ctx.count("payload-args:not-comparable")
             if sp["authentic"] and data[:22] == t["prefix"]:
                 auth_keys.setdefault(tgt, set()).add(sp["canon"])
+            if c.get("prelude") is not None:          # the datagram delivered immediately before also authenticates its key
+                spp = spec_eval(c["prelude"])
+                if spp["authentic"] and c["prelude"][:22] == t["prefix"]:
+                    auth_keys.setdefault(tgt, set()).add(spp["canon"])
             if any_entry and sp["authentic"]:
                 last_delivered[tgt] = data
             if any_entry:
@@ -1275,9 +1523,18 @@ async def run_async(ctx: Ctx, use_model: bool, scale: dict):
                 pa = "none" if not c.get("m_parse") else f"{c['m_parse'][1]}:{c['m_parse'][2].hex()}"
                 lines.append(f"recv {tgt} {data.hex() or '-'} {pa} {1 if c.get('m_verify') else 0} {dec} "
                              f"{net_hit.hex() if net_hit else '-'} {net_addr.hex() if net_addr else '-'}")
+                c["dec"], c["net_hit"] = dec, net_hit
                 expected.append((impl, c, h))
     finally:
         obs.stop()
+
+    # ---- the hand-written primitives against the real thing, exhaustively in a small scope + random ----------------------
+    if drv:
+        primitives_phase(ctx, drv, scale)
+
+    # ---- history correspondence: Node.recv vs the shared Network of two live overlays -----------------------------------
+    if drv and any(c.get("hist") for c in cases):
+        await history_phase(ctx, drv, [c for c in cases if c.get("hist")], tbn)
 
     # ---- model pass C and comparison ----------------------------------------------------------------------------
     if drv:
@@ -1298,6 +1555,8 @@ async def run_async(ctx: Ctx, use_model: bool, scale: dict):
                 ctx.count("touched:agree-some")
             head = rep.split(" ")[0]
             ctx.count(f"model:{rep if head in ('rejected', 'other') else head}")
+            for b_ in model_branches(rep, c, h, bool(m_touched)):
+                ctx.count("branch:" + b_)
             if head == "other":
                 continue                       # deprecated / cell / unreviewed raw handlers: not modelled
             if head == "called":
@@ -1370,6 +1629,16 @@ async def run_async(ctx: Ctx, use_model: bool, scale: dict):
             if rep != ex:
                 ctx.disagree("Gen.ezrPack differs from ezr_pack", {"line": ln[:300], "model": rep[:300], "impl": ex[:300]})
     await recv.stop()
+    if drv:
+        zero = [b_ for b_ in REQUIRED_BRANCHES if not ctx.counts.get("branch:" + b_)]
+        zero += [k for k in ("history:step:authentic", "history:step:forged", "history:step:authentic-new-key-other-overlay",
+                             "primitive:slice", "primitive:varlen") if not ctx.counts.get(k)]
+        ctx.extra["model_branches_required"] = len(REQUIRED_BRANCHES)
+        ctx.extra["model_branches_not_reached"] = zero
+        if zero and not ctx.failures and not ctx.disagreements and not ctx.broken and not ctx.searching:
+            from vlib import InfraError
+            raise InfraError(f"branches of the hand-written model that no case of this run reached: {zero} — the "
+                             f"correspondence would not have noticed a difference there")
     missing = ctx.extra.get("auth_pairs_without_captured_datagram")
     if missing and not ctx.failures and not ctx.disagreements and not ctx.broken and not ctx.searching:
         # never report green on shrunken coverage: an authenticated id without a captured datagram was not checked
@@ -1387,7 +1656,7 @@ SCALES = {
     "search": {"capture_rounds": 1, "per_pair": 1, "flips": 3, "every_byte_upto": 0, "every_byte_stride": 1,
                "unsigned_samples": 40, "pack_cases": 0, "identity_stride": 2, "base_stride": 2},
     # the same implementation-only run in a child interpreter started with -O (assert statements compiled away)
-    "child": {"capture_rounds": 1, "per_pair": 1, "flips": 1, "every_byte_upto": 0, "every_byte_stride": 1,
+    "child": {"history_steps": 0, "capture_rounds": 1, "per_pair": 1, "flips": 1, "every_byte_upto": 0, "every_byte_stride": 1,
               "unsigned_samples": 10, "pack_cases": 0, "identity_stride": 8, "base_stride": 5, "pair_stride": 4},
 }
 
